@@ -141,6 +141,20 @@ def run(ctx) -> None:
                   "test_period": rng.choice([3, 4]), "min_obs": 1}
             relate(ctx, "attenuated-range-window", "time-shift-subsecond", dsub, "qartod.attenuated_signal_test", k2,
                    {**k2, "tinp": gen.ftimes(tfs)}, ident, {"x": x, "t": tf})
+            # quarter-second sampling given as epoch numbers (and other carriers), windows of a whole number of steps: every
+            # window edge lies exactly on a sample, before and after the shift
+            stepq = rng.choice([0.25, 1.25, 0.75])
+            tq = [float(gen.T0) + rng.choice([0.0, 0.25]) + stepq * k for k in range(n)]
+            dq = rng.choice([0.25, 0.5, 1.0, 86400.25, -0.75, 3600.0])
+            carq = rng.choice(["epoch-float", "epoch-list", "dt64ns", "dt64ms", "pydatetime"])
+            for kind in ("range", "std"):
+                k3 = {"inp": X(x), "tinp": gen.ftimes(tq, carq), "suspect_threshold": 1.1, "fail_threshold": 0.3, "check_type": kind,
+                      "test_period": stepq * rng.choice([2, 3]), "min_obs": rng.choice([1, 2])}
+                relate(ctx, f"attenuated-{kind}-window", f"time-shift-quarter-second-{carq}", dq, "qartod.attenuated_signal_test", k3,
+                       {**k3, "tinp": gen.ftimes([v + dq for v in tq], carq)}, ident, {"x": x, "t": tq, "params": core.jsonable({k: v for k, v in k3.items() if k not in ("inp", "tinp")})})
+            k4 = {"inp": X(x), "tinp": gen.ftimes(tq, carq), "threshold": rng.choice([0.1, 0.4, 1.0])}
+            relate(ctx, "rate_of_change", f"time-shift-quarter-second-{carq}", dq, "qartod.rate_of_change_test", k4,
+                   {**k4, "tinp": gen.ftimes([v + dq for v in tq], carq)}, ident, {"x": x, "t": tq, "threshold": k4["threshold"]})
         # ---- flat line (regular axes)
         tr = gen.regular(n, D)
         p = {"suspect_threshold": rng.choice([0, D, 2 * D, 3 * D]), "fail_threshold": rng.choice([D, 3 * D, 4 * D, (n + 1) * D]),
@@ -269,6 +283,14 @@ def run(ctx) -> None:
             local("location-bbox", "qartod.location_test", {"lon": X(lon), "lat": X(lat), "bbox": [10.5, 50.25, 12, 51]},
                   "lon", lon, self_only)
             local("location-hop", "qartod.location_test", {"lon": X(lon), "lat": X(lat), "range_max": 20000.0}, "lat", lat, succ)
+            # a compact track whose hops run corner to corner: longer than either side of its bounding box
+            lon_d = [10.0 + (k % 2) * 1.0 + 0.01 * rng.randrange(0, 3) for k in range(n)]
+            lat_d = [50.0 + (k % 2) * 1.0 for k in range(n)]
+            for rm in (120000.0, 130000.0):
+                local("location-hop-diagonal", "qartod.location_test", {"lon": X(lon_d), "lat": X(lat_d), "range_max": rm}, "lat", lat_d, succ,
+                      {"range_max": rm, "lon": lon_d})
+            # (the neighbourhood of a rate is positional: the point and the next row, whatever the order of the stamps)
+            local("rate_of_change-descending-axis", "qartod.rate_of_change_test", {"inp": X(x), "tinp": TT(t[::-1]), "threshold": 0.01}, "inp", x, succ)
             local("spike", "qartod.spike_test", {"inp": X(x), "suspect_threshold": 0.2, "fail_threshold": 2,
                                                  "method": rng.choice(["average", "differential"])}, "inp", x, three)
             local("density_inversion-rho", "qartod.density_inversion_test",
